@@ -76,8 +76,8 @@ def drive(chk, D, kind, real_t, h, cells, residues, M, grid, bump):
                 m1 = float((wn * d).sum())
                 if abs(m1) > 16 * eps:
                     errs.append(f"marker {n}: first moment along axis {k} = {m1}")
-    # interpolation of a constant and of the coordinate field through the real kernel
-    shape = (grid,) * D
+    # interpolation of a constant and of the coordinate field through the real kernel (non-cubic grid)
+    shape = grid if isinstance(grid, tuple) else (grid,) * D
     const = np.full(shape, 3.0, dtype=real_t)
     out = np.zeros(N, dtype=real_t)
     c.eulerian_to_lagrangian_grid_interpolation_kernel(lag_grid_field=out, eul_grid_field=const, interp_weights=w, nearest_eul_grid_index_to_lag_grid=idx)
@@ -88,10 +88,10 @@ def drive(chk, D, kind, real_t, h, cells, residues, M, grid, bump):
             ax = D - 1 - k
             coord = np.zeros(shape, dtype=real_t)
             sh = [1] * D
-            sh[ax] = grid
-            coord[...] = ((np.arange(grid) + 0.5) * h).astype(real_t).reshape(sh)
+            sh[ax] = shape[ax]
+            coord[...] = ((np.arange(shape[ax]) + 0.5) * h).astype(real_t).reshape(sh)
             c.eulerian_to_lagrangian_grid_interpolation_kernel(lag_grid_field=out, eul_grid_field=coord, interp_weights=w, nearest_eul_grid_index_to_lag_grid=idx)
-            if np.abs(out.astype(float) - pos[k].astype(float)).max() > 32 * eps * grid * h:
+            if np.abs(out.astype(float) - pos[k].astype(float)).max() > 32 * eps * max(shape) * h:
                 errs.append(f"coordinate field along axis {k} interpolates to {out} at markers {pos[k]}")
     return errs
 
@@ -121,7 +121,8 @@ def run(chk: core.Check):
             for real_t in (np.float64, np.float32):
                 for h in ((0.25,) if quick else (0.25, 2.0**-6, 2.0)):
                     for M in Ms:
-                        grid = 10
+                        grid = (9, 13) if D == 2 else (8, 10, 14)        # array order (.., y, x): non-cubic
+                        ext = [grid[D - 1 - k] for k in range(D)]        # extent per physical axis
                         allres = list(itertools.product(range(M), repeat=D))
                         if D == 3 or M > 8:
                             sel = rng.choice(len(allres), size=min(len(allres), 60 if quick else 400), replace=False)
@@ -138,7 +139,8 @@ def run(chk: core.Check):
                                 batch = allres[i0 : i0 + nb]
                                 if len(batch) < nb:
                                     batch = batch + allres[: nb - len(batch)]
-                                cells = [tuple(int(x) for x in rng.integers(2, grid - 3, D)) for _ in batch]
+                                cells = [tuple(int(rng.integers(2, n - 3)) for n in ext) for _ in batch]
+                                cells[0] = tuple(n - 4 for n in ext)   # one marker at the far end of every axis
                                 try:
                                     errs = drive(chk, D, kind, real_t, h, cells, batch, M, grid, bump)
                                 except Exception as ex:
